@@ -412,4 +412,5 @@ def selftest(ctx):
     for v in ctx.violations:
         vlib.log("  reported: " + v[0][:160])
     ctx.violations = []
-    return 0 if ok else 2
+    import C01ext
+    return 0 if ok and C01ext.selftest(ctx) == 0 else 2
